@@ -627,3 +627,37 @@ def order_templates():
                           {"head": ("r", [X, V("Z")]), "body": [("pos", "e", [X, Y]), ("pos", "r", [Y, V("Z")])]},
                           {"head": ("q", [Y]), "body": [("pos", "r", [C(1), Y])]}], "query": "q"})
     return out
+
+
+def SC(code):
+    return ("sconst", code)
+
+
+def string_templates():
+    """Fixed family over typed relations s(Int, Str), t(Str, Str) (see pengine.REL_TYPES): string constants in atoms,
+    heads and comparisons, joins / negation / aggregation on string columns.  String values are modelled as Int codes
+    with the same order, so only var-vs-constant order comparisons and var-var (in)equality are used."""
+    X, Y, N, M = V("X"), V("Y"), V("N"), V("M")
+    B = lambda head, body: {"rules": [{"head": ("q", head), "body": body}], "query": "q"}
+    out = [
+        B([X], [("pos", "s", [X, SC(1)])]),
+        B([X, N], [("pos", "s", [X, N]), ("cmp", N, "!=", SC(1))]),
+        B([X, Y], [("pos", "s", [X, N]), ("pos", "s", [Y, N]), ("cmp", X, "<", Y)]),
+        B([X, M], [("pos", "s", [X, N]), ("pos", "t", [N, M])]),
+        B([X, M], [("pos", "s", [X, N]), ("pos", "t", [N, M]), ("cmp", M, "=", SC(2))]),
+        B([X, M], [("pos", "s", [X, N]), ("pos", "t", [M, N]), ("cmp", M, "!=", SC(2))]),
+        B([X, M], [("pos", "s", [X, N]), ("pos", "t", [N, M]), ("cmp", N, ">", SC(0))]),
+        B([X], [("pos", "s", [X, N]), ("neg", "t", [N, SC(1)])]),
+        B([X, N], [("pos", "a", [X, Y]), ("pos", "s", [Y, N]), ("cmp", N, "=", SC(0))]),
+        B([N, ("agg", "count", "X")], [("pos", "s", [X, N])]),
+        B([X, N], [("pos", "s", [X, N]), ("cmp", N, "<", SC(2))]),
+        B([X, SC(3)], [("pos", "s", [X, ("wild",)])]),
+        B([N, M], [("pos", "t", [N, M]), ("cmp", N, "!=", M)]),
+        B([X], [("pos", "s", [X, N]), ("pos", "t", [N, N])]),
+        B([X, N], [("pos", "s", [X, N]), ("pos", "t", [SC(1), N]), ("cmp", X, ">", C(0))]),
+    ]
+    out.append({"rules": [{"head": ("v", [N]), "body": [("pos", "t", [N, ("wild",)])]},
+                          {"head": ("q", [X]), "body": [("pos", "s", [X, N]), ("pos", "v", [N])]}], "query": "q"})
+    out.append({"rules": [{"head": ("q", [X, N]), "body": [("pos", "s", [X, N]), ("cmp", N, "=", SC(1))]},
+                          {"head": ("q", [X, N]), "body": [("pos", "s", [X, M]), ("pos", "t", [M, N])]}], "query": "q"})
+    return out
